@@ -69,18 +69,42 @@ def locminmaxRaw (isMin : Bool) (vA vOut vBc : C08.View) (bc : Array Int) : List
   filterCopyRaw 1 vBc ++
   (List.range (shapeSize vA.shape)).map (locPixel isMin vA vOut (C14.neighbours vBc.shape bc))
 
+/-! ## hitmiss (`_morph.cpp` `hitmiss<T>`): gather kernel through `at_flat` — REAL step program
+
+roles: `inp 0` = input, `inp 1` = Bc (read while the neighbour table is built: the program is generated from the table
+`C08.hmTable vA mB vB`, i.e. from Bc's memory, as the labeled fold is from the labels); `own 0` = the result. Per pixel `i` one
+unconditional store: `0` where the loop control skips the pixel (`C14.hmEvaluated` false: margins), else the conjunction of
+`input.at_flat(i + delta) == value` over the table — the step reads ALL table entries (the C++ stops at the first mismatch:
+a superset). -/
+
+def hmVal (vals : List Int) (vs : List Val) : Val :=
+  if (vals.zip vs).all (fun p => p.2 == p.1) then 1 else 0
+
+def hmPixel (vA vOut : C08.View) (tab : List (Int × Int)) (bshape : List Nat) (i : Nat) : RStep :=
+  if C14.hmEvaluated vA.shape bshape (vA.flatToPos (i : Int)) then
+    { dst := 0, doff := iterAddr vOut i,
+      srcs := tab.map (fun e => (⟨.inp 0, vA.atFlat ((i : Int) + e.1).toNat⟩ : RLoc)),
+      op := hmVal (tab.map (·.2)) }
+  else { dst := 0, doff := iterAddr vOut i, srcs := [], op := fun _ => 0 }
+
+def hitmissRaw (vA vOut : C08.View) (tab : List (Int × Int)) (bshape : List Nat) : List RStep :=
+  (List.range (shapeSize vA.shape)).map (hmPixel vA vOut tab bshape)
+
 inductive Kernel3 where
   | majority (n : Nat) (vA vOut : C08.View)
   | locminmax (isMin : Bool) (vA vOut vBc : C08.View) (bc : Array Int)
+  | hitmiss (vA vOut : C08.View) (tab : List (Int × Int)) (bshape : List Nat)
 
 def Kernel3.raw : Kernel3 → List RStep
   | .majority n vA vOut => majorityRaw n vA vOut
   | .locminmax isMin vA vOut vBc bc => locminmaxRaw isMin vA vOut vBc bc
+  | .hitmiss vA vOut tab bshape => hitmissRaw vA vOut tab bshape
 
 /-- number of argument arrays and of owned arrays the kernel's roles refer to -/
 def Kernel3.arity : Kernel3 → Nat × Nat
   | .majority .. => (1, 1)
   | .locminmax .. => (2, 2)
+  | .hitmiss .. => (2, 1)
 
 /-- kernel `k` called on the arrays of `c` -/
 def Kernel3.call (k : Kernel3) (c : Call) : KCall := ⟨c, k.raw⟩
